@@ -399,7 +399,10 @@ class C11:
             t = rng.randrange(len(trees))
             trees[t] = trees[t] + [["liquid", [["tag", "#", "note", ""], ["tag", "echo", "x", ""], ["tag", "#", "", ""],
                                                ["tag", "echo", "'z'", ""]]]]
-        used = used_chars(trees + list(partials.values()))
+        # every character the run writes between delimiters must stay out of the delimiter alphabet:
+        # the trees, the partials, and the fixed texts of the embedding operation (host brackets, guest body)
+        used = used_chars(trees + list(partials.values()) + [guest_tree({"custom": {"filter": True, "tag": True}})]) \
+            | set("[]")
         specs = []
         delim_sets = []
         for _ in range(rng.randint(1, 3)):
